@@ -447,14 +447,14 @@ impl<'a> Exec<'a> {
         }
         // init looks at the work dir only when it decides between "existing storage" and "fresh storage"
         let had_files = !all_ids.is_empty();
-        for (id, is_idx, _) in sut::list_files(&self.dir.join("corrupted")) {
+        for (id, is_idx, _) in sut::list_files(&self.cfg.corrupted_path(&self.dir)) {
             if !is_idx {
                 all_ids.push(id);
             }
         }
         // files that are no quarantined blobs may sit in the corrupted dir (an index file saved by an operator, notes):
         // they are neither counted nor do they reserve ids
-        let cdir = self.dir.join("corrupted");
+        let cdir = self.cfg.corrupted_path(&self.dir);
         if cdir.is_dir() {
             let _ = std::fs::write(cdir.join(format!("{}.999.index", sut::PREFIX)), b"not a blob");
             let _ = std::fs::write(cdir.join("notes.2023.txt"), b"not a blob");
@@ -794,6 +794,18 @@ pub fn model_apply(model: &mut Model, keylen: usize, idx: usize, op: &Op) -> boo
         }
         Op::Reopen { lazy, .. } => {
             model.restart(*lazy);
+            true
+        }
+        Op::ForceUpdate(p) => {
+            let fire = match p {
+                Pred::Always => true,
+                Pred::Never | Pred::SlowNever => false,
+                Pred::Records3 => model.active.map_or(false, |a| model.count_of(a) >= 3),
+                Pred::NoActive => model.active.is_none(),
+            };
+            if fire {
+                model.force_update();
+            }
             true
         }
         Op::WaitIdle | Op::Fsync | Op::Free | Op::Offload { .. } => true,
